@@ -15,7 +15,7 @@ use slicec::grammar::*;
 use slicec::slice_file::Span;
 use slicec::slice_options::SliceOptions;
 
-fn text_at(src: &str, span: &Span) -> Option<String> {
+pub(crate) fn text_at(src: &str, span: &Span) -> Option<String> {
     let lines: Vec<&str> = src.split('\n').collect();
     if span.start.row == 0 || span.end.row == 0 || span.start.row > span.end.row || span.end.row > lines.len() { return None; }
     if span.start.row == span.end.row && span.start.col > span.end.col { return None; }
@@ -40,7 +40,7 @@ fn quoted(msg: &str) -> Option<String> {
 pub fn run() -> i32 {
     let mut rep = Report::new(
         "spans",
-        "every filler of length <= 2 over 8 characters in 7 placements before a checked element; the text under the span of E033 / BrokenDocLink / Deprecated diagnostics and of struct and field identifiers must be the name they are about; all spans well-formed; truncated directives reported on their own line",
+        "every filler of length <= 2 over 8 characters in 7 placements before a checked element; the text under the span of E033 / BrokenDocLink / Deprecated diagnostics and of struct and field identifiers must be the name they are about; all spans well-formed; truncated directives reported on their own line; 16 ill-formed programs whose subject is a middle sibling: each diagnostic's span covers the element it names",
     );
     let alpha = ["a", "é", "日", "\t", " ", "{", "\\\"", "\\\\"];
     let mut fillers: Vec<String> = vec![String::new()];
@@ -181,6 +181,44 @@ pub fn run() -> i32 {
                         let got = sp.as_ref().and_then(|s| text_at(text, s));
                         if got.as_deref() != Some(*want) { rep.counterexample(text, &format!("the span of {kind} {id} covers exactly {want:?}"), &format!("{got:?} ({:?})", sp.map(|s| (s.start.row, s.start.col, s.end.row, s.end.col)))); }
                     }
+                }
+            }
+        }
+    }
+    // ---- a diagnostic points at the element it is ABOUT (not at a neighbour): ill-formed programs where the subject is neither the
+    //      first nor the last of its siblings; for each reported code, the text under the diagnostic's span
+    {
+        let cases: Vec<(&str, Vec<(&str, &str)>)> = vec![
+            // (program, [(code, text its span must cover)]) in the order reported
+            ("module M\ninterface I {\n    op(first: bool, s: stream int32, i: int32, name: string)\n}\n", vec![("E013", "s: stream int32")]),
+            ("module M\ninterface I {\n    op() -> (first: bool, s: stream int32, i: int32, name: string)\n}\n", vec![("E013", "s: stream int32")]),
+            ("module M\ninterface I {\n    op(a: bool, s: stream int32, t: stream bool, u: stream string)\n}\n", vec![("E013", "s: stream int32"), ("E013", "t: stream bool"), ("E029", "s: stream int32"), ("E029", "t: stream bool")]),
+            ("module M\nstruct S { a: bool, tag(1) b: bool?, tag(2) c: bool, tag(3) d: bool? }\n", vec![("E016", "tag(2) c: bool")]),
+            ("module M\nstruct S { a: bool, tag(1) b: bool?, tag(1) c: bool?, tag(3) d: bool? }\n", vec![("E012", "tag(1) c: bool?")]),
+            ("module M\nstruct S { a: bool, b: bool, a: string, d: bool }\n", vec![("E010", "a")]),
+            ("module M\nenum E : uint8 { A, B = 300, C = 1, D }\n", vec![("E020", "B = 300")]),
+            ("module M\nenum E : uint8 { A = 1, B = 2, C = 1, D }\n", vec![("E022", "C = 1"), ("E022", "D")]),
+            ("module M\ncompact struct S { a: bool, tag(1) b: bool?, c: bool }\n", vec![("E015", "tag(1) b: bool?")]),
+            ("module M\nstruct K { a: bool }\nstruct S { a: bool, d: Dictionary<float32, bool>, c: bool }\n", vec![("E005", "float32")]),
+            ("module M\ninterface I {\n    a()\n    [oneway] b() -> bool\n    c()\n}\n", vec![("E023", "oneway")]),
+            ("module M\ninterface I {\n    a()\n    [compress(Nope)] b()\n    c()\n}\n", vec![("E027", "compress(Nope)")]),
+            ("module M\ninterface B { a()\n b()\n c() }\ninterface I : B {\n    x()\n    b()\n    y()\n}\n", vec![("E011", "b")]),
+            ("module M\nstruct S { a: bool, b: Missing, c: bool }\n", vec![("E033", "Missing")]),
+            ("module M\nstruct T {}\ninterface I {}\nstruct S { a: bool, b: I, c: bool }\ninterface J : T {}\n", vec![("E017", "I"), ("E017", "T")]),
+            ("module M\ninterface I {\n    /// @param q: nope\n    /// @returns: nothing\n    /// @param p: yes\n    op(p: bool)\n}\n", vec![("IncorrectDocComment", "@param q"), ("IncorrectDocComment", "@returns: nothing")]),
+        ];
+        for (text, wants) in cases {
+            rep.case(true, || format!("subject spans: {text:?}"));
+            let t2 = text.to_owned();
+            let out = std::panic::catch_unwind(move || {
+                let state = slicec::compile_from_strings(&[&t2], Some(&SliceOptions::default()));
+                state.diagnostics.into_inner().iter().map(|d| (d.code().to_owned(), d.span().and_then(|s| text_at(&t2, s)))).collect::<Vec<_>>()
+            });
+            match out {
+                Err(_) => rep.counterexample(text, "diagnostics", "PANIC"),
+                Ok(got) => {
+                    let want: Vec<(String, Option<String>)> = wants.iter().map(|(c, t)| (c.to_string(), Some(t.to_string()))).collect();
+                    if got != want { rep.counterexample(text, &format!("{want:?}"), &format!("{got:?}")); }
                 }
             }
         }
